@@ -32,6 +32,36 @@ def expected_chain(n, dom, reverse):
     return sorted(sols)
 
 
+I31 = 2 ** 31
+VALUE_CASES = {
+    # name: (Problem arguments, propagators, expected sorted solutions)   -- expected = what the declaration means mathematically
+    "dom-top-inside": (([(I31 - 3, I31 - 1)],), [], [(I31 - 3,), (I31 - 2,), (I31 - 1,)]),
+    "dom-bottom-inside": (([(-I31, -I31 + 2)],), [], [(-I31,), (-I31 + 1,), (-I31 + 2,)]),
+    "dom-max-above-int32": (([(I31 - 1, I31)],), [], [(I31 - 1,), (I31,)]),
+    "dom-min-below-int32": (([(-I31 - 1, -I31)],), [], [(-I31 - 1,), (-I31,)]),
+    "dom-2^32": (([(2 ** 32 + 1, 2 ** 32 + 2)],), [], [(2 ** 32 + 1,), (2 ** 32 + 2,)]),
+    "dom-2^32-second": (([(0, 1), (2 ** 32, 2 ** 32 + 1)],), [], [(a, 2 ** 32 + b) for a in (0, 1) for b in (0, 1)]),
+    "dom-minus-2^32": (([(-2 ** 32 - 2, -2 ** 32 - 1)],), [], [(-2 ** 32 - 2,), (-2 ** 32 - 1,)]),
+    "singleton-2^32": (([2 ** 32 + 7, (0, 1)],), [], [(2 ** 32 + 7, 0), (2 ** 32 + 7, 1)]),
+    "view-sum-above-int32": (([(I31 - 2, I31 - 1)], [0, 0], [0, 5]), [], [(I31 - 2, I31 + 3), (I31 - 1, I31 + 4)]),
+    "view-sum-below-int32": (([(-I31, -I31 + 1)], [0, 0], [0, -5]), [], [(-I31, -I31 - 5), (-I31 + 1, -I31 - 4)]),
+    "view-sum-inside": (([(I31 - 2, I31 - 1)], [0, 0], [0, -5]), [], [(I31 - 2, I31 - 7), (I31 - 1, I31 - 6)]),
+    "offset-2^32": (([(0, 1)], [0], [2 ** 32 + 5]), [], [(2 ** 32 + 5,), (2 ** 32 + 6,)]),
+    "parameter-2^32": (([(0, 1), (0, 1)],), [([0, 1], "leq", [1, 1, 2 ** 32 + 1])], [(0, 0), (0, 1), (1, 0), (1, 1)]),
+    "parameter-minus-2^32": (([(0, 1), (0, 1)],), [([0, 1], "leq", [1, 1, -2 ** 32 + 1])], []),
+    "added-variable-2^32": ("add_variable", [], [(0, 2 ** 32 + 1), (0, 2 ** 32 + 2)]),
+}
+
+
+def value_case(name):
+    from nucs.problems.problem import Problem  # noqa
+    from nucs.propagators.propagators import ALG_AFFINE_LEQ
+
+    args, cons, exp = VALUE_CASES[name]
+    cons = [(vs, ALG_AFFINE_LEQ, ps) for vs, _t, ps in cons]
+    return args, cons, sorted(exp)
+
+
 def run_point(pt):
     from mc import solvemc as S
     from nucs.solvers.backtrack_solver import BacktrackSolver
@@ -122,6 +152,24 @@ def run_point(pt):
             cnt = len(sols)
             bad = sum(1 for x in sols if not valid(x))
             out["outcome"] = "correct" if cnt == exp and not bad else f"wrong:{cnt}-of-{exp}" + (f"-{bad}-invalid" if bad else "")
+        elif kind == "values":
+            # value ranges around the limits of the 32-bit storage of domains, offsets and parameters (n = case number, `heur` its name)
+            from nucs.problems.problem import Problem
+            from nucs.propagators.propagators import ALG_AFFINE_LEQ
+
+            args, cons_, exp = value_case(heur)
+            if args == "add_variable":
+                p = Problem([0])
+                p.add_variable((2 ** 32 + 1, 2 ** 32 + 2))
+            else:
+                p = Problem(*args)
+            for c in cons_:
+                p.add_propagator(c)
+            solver = BacktrackSolver(p, dom_heuristic_idx=S.DOMH[cons if cons in S.DOMH else "min"], log_level="ERROR")
+            sols = sorted(tuple(int(v) for v in x) for x in solver.solve())
+            out["outcome"] = "correct" if sols == exp else f"wrong:{len(sols)}-of-{len(exp)}"
+            if sols != exp:
+                out["detail"] = f"got {sols[:3]} expected {exp[:3]}"
     except IndexError as e:
         out["outcome"] = "IndexError"
         out["detail"] = str(e)[:120]
